@@ -47,11 +47,36 @@ Record meta_site := {
   cm_aliases : bool      (* memo: some stored value is not provably a fresh object (it may alias a class attribute) *)
 }.
 
+(* mutations of process-global state (working directory, environment, sys.path, warnings filters, logging configuration,
+   recursion limit, locale, stdio) in the analysed modules *)
+Inductive pskind := KCwd | KEnviron | KSysPath | KWarnings | KLogging | KRecursion | KLocale | KStdio.
+
+Record proc_site := {
+  ps_module : string; ps_func : string; ps_kind : pskind;
+  ps_import_time : bool;   (* a module-level statement: executed once at import, a constant of every history *)
+  ps_restored : bool       (* inside a function: in a saving context manager, or restored in the `finally` of the try that
+                              immediately follows / encloses it (for the cwd: os.chdir(saved), saved = os.getcwd()) *)
+}.
+
+(* un-restored mutations that /repo has today, recorded as known findings (known_findings.jsonl) and re-demonstrated on every
+   run; any OTHER site, and any other kind in these functions, still breaks the obligation *)
+Definition known_proc_site (s : proc_site) : bool :=
+  String.eqb (ps_module s) "neuroml.loaders" &&
+  match ps_kind s with
+  | KWarnings => String.eqb (ps_func s) "NeuroMLLoader.__nml2_doc" || String.eqb (ps_func s) "_read_neuroml2"
+  | KLogging => String.eqb (ps_func s) "NeuroMLHdf5Loader.__nml2_doc"   (* no effect: the package import configures logging first *)
+  | _ => false
+  end.
+
+Definition proc_bad (s : proc_site) : bool :=
+  negb (ps_import_time s) && negb (ps_restored s) && negb (known_proc_site s).
+
 Record state_table := {
   st_defaults : list default_site;
   st_fields : list field_site;
   st_globals : list global_site;
-  st_classmeta : list meta_site
+  st_classmeta : list meta_site;
+  st_process : list proc_site
 }.
 
 Definition is_nil {A} (l : list A) : bool := match l with [] => true | _ => false end.
@@ -71,8 +96,11 @@ Definition globals_read (t : state_table) : list global_site := filter global_re
 Definition meta_bad (m : meta_site) : bool := cm_mutated m || cm_aliases m.
 Definition mutated_class_attrs (t : state_table) : list meta_site := filter meta_bad (st_classmeta t).
 
+Definition process_leaks (t : state_table) : list proc_site := filter proc_bad (st_process t).
+
 Definition state_ok (t : state_table) : bool :=
-  is_nil (mutated_defaults t) && all_own t && is_nil (globals_read t) && is_nil (mutated_class_attrs t).
+  is_nil (mutated_defaults t) && all_own t && is_nil (globals_read t) && is_nil (mutated_class_attrs t)
+  && is_nil (process_leaks t).
 
 (* ------------------------------------------------------------------------------------------- *)
 (* B2. histories of calls with footprints                                                        *)
@@ -95,6 +123,13 @@ Section History.
     forall x w c, ~ In c (Wr x) -> snd (sem x w) c = w c.
 
   Definition no_interference : Prop := forall x y c, In c (Wr x) -> ~ In c (Rd y).
+
+  (* a cell every call leaves as it found it, on normal and on raising outcomes (e.g. the working directory when every
+     os.chdir is undone in a finally) *)
+  Definition restores (c : C) : Prop := forall x w, snd (sem x w) c = w c.
+
+  (* every cell a call reads is either written by nobody or restored by everybody *)
+  Definition stable_reads : Prop := forall x y c, In c (Rd x) -> ~ In c (Wr y) \/ restores c.
 
   Fixpoint run (h : list call) (w : gworld) : gworld :=
     match h with [] => w | x :: h' => run h' (snd (sem x w)) end.
